@@ -107,6 +107,11 @@ type WAL struct {
 	overflowWarning bool  // Track if overflow warning has been logged
 	mu              sync.Mutex
 
+	// Lowest sequence number whose entry may exist in no table file yet (set by the
+	// storage engine); 0 = not tracked. Retention keeps every log file that holds
+	// such an entry, whatever the policy says.
+	unflushedFrom uint64
+
 	// Observer-related fields
 	observers   map[string]WALEntryObserver
 	observersMu sync.RWMutex
